@@ -52,8 +52,21 @@ func main() {
 	budget := flag.Int("budget", 0, "override time budget per harness (s)")
 	trace := flag.String("trace", "", "write worker 0 solver traffic to file")
 	flag.BoolVar(&debugEngine, "debug", false, "let engine errors crash with a stack")
+	flag.BoolVar(&oneShot, "oneshot", false, "fresh solver context per query (reset) instead of push/pop")
 	flag.Parse()
 	args := flag.Args()
+	// allow flags after the positional arguments: gosym check C09 quick -only X
+	var posArgs []string
+	for i := 0; i < len(args); i++ {
+		if len(args[i]) > 1 && args[i][0] == '-' {
+			flag.CommandLine.Parse(args[i:])
+			rest := flag.Args()
+			posArgs = append(posArgs, rest...)
+			break
+		}
+		posArgs = append(posArgs, args[i])
+	}
+	args = posArgs
 	if len(args) < 2 || args[0] != "check" {
 		fmt.Fprintln(os.Stderr, "usage: gosym [flags] check <property> [quick|thorough]")
 		os.Exit(2)
@@ -247,7 +260,7 @@ func (c *checker) run() int {
 		if hr.aborted != "" {
 			inconclusive = append(inconclusive, hr.name+": "+hr.aborted)
 		}
-		for _, k := range []string{"unsupported", "unwind", "engine-error", "anchor-missing", "concretize-cap", "deadlock"} {
+		for _, k := range []string{"unsupported", "unwind", "engine-error", "anchor-missing", "concretize-cap", "deadlock", "solver-timeout"} {
 			if hr.outcomes[k] > 0 {
 				inconclusive = append(inconclusive, fmt.Sprintf("%s: %d paths ended %s (%s)", hr.name, hr.outcomes[k], k, hr.outcomeMsg[k]))
 			}
@@ -384,6 +397,23 @@ func (c *checker) explore(fn *ssa.Function, ref harnessRef) *HarnessRun {
 	h.work = [][]Decision{nil}
 	t0 := time.Now()
 	var wg sync.WaitGroup
+	stopTick := make(chan struct{})
+	go func() {
+		tk := time.NewTicker(15 * time.Second)
+		defer tk.Stop()
+		for {
+			select {
+			case <-stopTick:
+				return
+			case <-tk.C:
+				h.mu.Lock()
+				fmt.Fprintf(os.Stderr, "[gosym]   ... %s: %d paths, %d queued, %d active, %d queries, %.0fs solver, outcomes=%v\n", h.name, atomic.LoadInt64(&h.paths), len(h.work), h.active,
+					atomic.LoadInt64(&statQueries), float64(atomic.LoadInt64(&statSolverNs))/1e9, h.outcomes)
+				h.mu.Unlock()
+			}
+		}
+	}()
+	defer close(stopTick)
 	for i := 0; i < c.workers; i++ {
 		wg.Add(1)
 		go func(i int) {
